@@ -46,10 +46,15 @@ def mc_configs(tier):
          ["BindEph", "SendLoop", "SendSelf", "SendRemote", "SendRefused", "DeliverQueued", "DeliverKind",
           "DeliverUnbound", "DeliverFull", "LoDeliverQueued", "LoDeliverDropped", "RecvWhole", "RecvCut"]),
         # broadcast and multicast routing (option off / on, members on own and other hosts)
-        ("mc_multi", base_consts(DstKinds={"bcast", "mc"}, Ops={"setbc", "join", "send", "recv"},
+        ("mc_multi", base_consts(DstKinds={"bcast", "mc"}, Ops={"setbc", "join", "send", "recv"}, Lens={0, 3},
                                  MaxSend=2, MaxSock=2, MaxCtl=2),
          ["SetBc", "Join", "SendBcast", "SendMcNet", "SendMcLoop", "SendMcNone", "SendRefused", "DeliverQueued",
-          "DeliverFull", "LoDeliverQueued", "LoDeliverDropped", "RecvWhole", "RecvCut"]),
+          "DeliverFull", "LoDeliverQueued", "LoDeliverDropped", "RecvWhole", "RecvCut", "RecvZero"]),
+        # zero-length datagrams (no id: matched by origin, discharged by count), capacity, readable()
+        ("mc_zero", base_consts(Cap=2, DstPorts={1}, Lens={0}, DstKinds={"host", "lo"}, Ops={"send", "recv", "readable"},
+                                MaxSend=3 if q else 4, MaxSock=2, MaxCtl=0),
+         ["SendRemote", "SendLoop", "SendSelf", "DeliverQueued", "DeliverFull", "DeliverSilent", "LoDeliverQueued",
+          "RecvZero", "RecvBuffered", "ReadableOk"]),
         # join / leave / drop-socket / re-bind / loop-option histories around multicast sends
         ("mc_member", base_consts(DstKinds={"mc"}, Ops={"join", "leave", "drop", "bind", "setml", "send", "recv"},
                                   MaxSend=2, MaxSock=3, MaxCtl=3 if q else 4),
@@ -100,12 +105,16 @@ def gen_configs(tier, seed):
                                 Grouped=True, MaxRecv=2 if q else 3), None),
         ("gen_filter", base_consts(DstPorts={1}, DstKinds={"host"}, Ops={"connect", "drop", "bind", "send", "recv"},
                                    Bufs={8}, MaxSend=1, MaxSock=3, MaxCtl=2, MaxLen=4 if q else 5, **g), None),
+        ("gen_zero", base_consts(Cap=1, DstPorts={1}, Lens={0}, DstKinds={"host", "lo"}, Ops={"connect", "send", "recv"},
+                                 Bufs={8}, MaxSend=2, MaxSock=2, MaxCtl=1, MaxLen=5, **g), None),
         # random walks of the full alphabet
-        ("gen_walk", base_consts(Cap=2, FixedPorts={1, 2}, EphLo=3, EphHi=4, DstPorts={1, 2, 3}, BindKinds={"any", "lo"},
+        ("gen_walk", base_consts(Cap=2, FixedPorts={1, 2}, EphLo=3, EphHi=4, DstPorts={1, 2, 3}, Lens={0, 3},
+                                 BindKinds={"any", "lo"},
                                  DstKinds=set(ALL_DST), Ops=set(ALL_OPS), PreBind={111, 211, 122},
                                  MaxSend=6, MaxSock=7, MaxCtl=8, MaxLen=16, Grouped=True, MaxRecv=8),
          f"num={12 if q else 150}"),
-        ("gen_walk3", base_consts(N=3, Cap=1, FixedPorts={1}, EphLo=2, EphHi=3, DstPorts={1, 2}, BindKinds={"any", "lo"},
+        ("gen_walk3", base_consts(N=3, Cap=1, FixedPorts={1}, EphLo=2, EphHi=3, DstPorts={1, 2}, Lens={0, 3},
+                                  BindKinds={"any", "lo"},
                                   DstKinds={"host", "lo", "bcast", "mc"}, Ops=set(ALL_OPS) - {"bind"},
                                   PreBind={111, 211, 311}, MaxSend=6, MaxSock=6, MaxCtl=6, MaxLen=14,
                                   Grouped=True, MaxRecv=6),
@@ -130,7 +139,7 @@ def random_configs(tier, seed):
 def trace_consts(n, cap, nfixed, neph):
     return dict(N=n, Cap=cap, FixedPorts=set(range(1, nfixed + 1)), EphLo=nfixed + 1, EphHi=nfixed + neph,
                 DstPorts=set(range(1, nfixed + neph + 1)),
-                Groups={1, 2}, Lens=set(range(2, 10)), Bufs=set(range(1, 11)) | {64},
+                Groups={1, 2}, Lens={0} | set(range(2, 10)), Bufs=set(range(1, 11)) | {64},
                 BindKinds={"any", "lo"}, DstKinds=set(ALL_DST), Ops=set(ALL_OPS), PreBind=set(), Grouped=False,
                 MaxSend=100000, MaxSock=100000, MaxCtl=100000, MaxRecv=100000)
 
